@@ -18,23 +18,24 @@ theorem compareType_self (d : DTy) : compareType d d = false := Lemmas.Diff.comp
 
 /-- full-strength statement of the type part: a column is never reported as having changed
 its type against the database created from it. -/
-def types_quiet_statement : Prop := ∀ t : MdTy, compareType (reflTy (ddlTy t)) (ddlTy t) = false
+def types_quiet_statement : Prop := ∀ t : MdTy, compareType (reflTy (declTy t)) (ddlTy t) = false
 
 /-- it is false on the unchanged tree: type names SQLAlchemy's SQLite dialect reflects through
 affinity rules (CLOB, BINARY, VARBINARY, DOUBLE PRECISION, UUID) come back as another type. -/
 theorem types_quiet_counterexample : ¬ types_quiet_statement := by
   intro h
-  have := h ⟨.CLOB, []⟩
+  have := h { fam := .CLOB, args := [] }
   revert this
   decide
 
 /-- for every type of the catalogue that reflects by name, with arbitrary length / precision /
 scale arguments -/
-theorem types_quiet_partial (t : MdTy) (h : known (ddlTy t) = true) :
-    compareType (reflTy (ddlTy t)) (ddlTy t) = false := compareType_refl_known t h
+theorem types_quiet_partial (t : MdTy) (h : known (declTy t) = true) :
+    compareType (reflTy (declTy t)) (ddlTy t) = false := compareType_refl_known t h
 
-example : known (ddlTy ⟨.Numeric, [12, 4]⟩) = true := by decide
-example : known (ddlTy ⟨.DOUBLE_PRECISION, []⟩) = false := by decide
+example : known (declTy ⟨.Numeric, [12, 4], none⟩) = true := by decide
+example : known (declTy ⟨.String, [120], some .nocase⟩) = true := by decide
+example : known (declTy ⟨.DOUBLE_PRECISION, [], none⟩) = false := by decide
 
 /-! ## server defaults (F9) -/
 
@@ -80,7 +81,7 @@ def quiet_statement : Prop :=
   ∀ (cfg : Cfg) (a : Schema), WF a → diff cfg (reflect (createAll a)) a = []
 
 def witness : Schema :=
-  [{ name := "t", cols := [{ name := "c", ty := ⟨.String, [20]⟩, nullable := true, dflt := some (.str its) }] }]
+  [{ name := "t", cols := [{ name := "c", ty := { fam := .String, args := [20] }, nullable := true, dflt := some (.str its) }] }]
 
 theorem witness_wf : WF witness := by
   constructor
@@ -94,7 +95,7 @@ theorem witness_diff : diff {} (reflect (createAll witness)) witness = [Op.modif
   have h : compareDefault (some (reflectDefault (.str its))) (some (.str its)) = true := by decide
   simp [diff, witness, reflect, createAll, createTable, reflectTable, findTable, sortTablesByName, compareTable,
     addedCols, alteredCols, removedCols, compareIxUq, compareFks, namedOf, createCol, reflectCol, findRCol,
-    compareCol, sortNames, Lemmas.Diff.compareType_self, reflTy, known, knownName, ddlTy, h, reflectDefault] at *
+    compareCol, sortNames, Lemmas.Diff.compareType_self, reflTy, known, knownName, ddlTy, declTy, h, reflectDefault] at *
 
 /-- **F9 at schema level**: a one-table model with `server_default="it's"` is not quiet -/
 theorem quiet_counterexample : ¬ quiet_statement := by
@@ -167,7 +168,7 @@ def oneCol (t : String) (c : DCol) : Db := [{ name := t, cols := [c] }]
 /-- the column after the upgrade, field by field -/
 def afterCol (cfg : Cfg) (a : DCol) (b : Col) : DCol :=
   { name := a.name
-    ty := if cfg.compareType && compareType (reflTy a.ty) (ddlTy b.ty) then ddlTy b.ty else a.ty
+    ty := if cfg.compareType && compareType (reflTy a.ty) (ddlTy b.ty) then declTy b.ty else a.ty
     nullable := if a.nullable != b.nullable then b.nullable else a.nullable
     dflt := if cfg.compareDefault && compareDefault (a.dflt.map autogenReflect) b.dflt
             then b.dflt.map (fun v => sqliteStore (ddlDefault v)) else a.dflt
@@ -219,7 +220,7 @@ theorem converge_column (cfg : Cfg) (t : String) (a : DCol) (b : Col) (hn : a.na
 /-- non-vacuity: a VARCHAR(10) NULL column against `Integer NOT NULL DEFAULT 'abc'` needs all
 three alterations -/
 example : (compareCol {} "t" (reflectCol { name := "c", ty := ⟨.varchar, [], [10]⟩, nullable := true })
-    { name := "c", ty := ⟨.Integer, []⟩, nullable := false, dflt := some (.str ['a', 'b', 'c']) }).length = 3 := by
+    { name := "c", ty := { fam := .Integer, args := [] }, nullable := false, dflt := some (.str ['a', 'b', 'c']) }).length = 3 := by
   decide
 
 end C06
